@@ -131,6 +131,45 @@ NEEDS = {
  'C18c-m2': '--lst with two symbols of one file that have the same value, under different PYTHONHASHSEED: ties come out in set iteration order',
  'C19c-m1': "--lst with '-o NAME.EXT' where EXT is not bin/raw (prog.sav, PROG.BIN): the listing name loses the extension",
  'C19c-m2': 'two or more symbols with the same value in one section whose names order differently with the letter case folded (Zed/alpha, IOB/IO_BASE)',
+ # ---- round 4
+ 'C01d-m1': "a NEGATIVE inline number of emt/trap/sys (emt -1, 'neg = -2' / 'emt neg', trap #-20): wrapped with 255 instead of 256",
+ 'C01d-m2': 'three or more files in one link whose earlier files are already plain bytes (no forward or base-dependent reference): the third file is placed by the length of the second only',
+ 'C02d-m1': "'.repeat' of three or more copies, fully computable body whose copies differ in length (.even/.odd/.align inside an odd-sized body), something in copy 3+ that looks at '.'",
+ 'C02d-m2': "an included file whose first size-producing statement has a position-dependent length ('.repeat 1 { .byte 1 / .even }') and a later '.repeat COUNT { }' with COUNT defined below: terms in front of the expanded base promise are dropped",
+ 'C03d-m1': "'.repeat' n>=2 whose body cannot be evaluated when met (a constant defined further down) and depends on its own address (PC-relative operand, branch, '.'): copies 2.. see a stale '.'",
+ 'C03d-m2': "a literal on the LEFT of a parenthesised sum with a non-zero constant over a lazily held symbol ('3 * <scale + 2>' with 'scale = unit' above 'unit = 5')",
+ 'C04d-m1': 'an FP-11 instruction whose relative operand is a symbol that begins like ac0..ac4 (ac1save): the length test of the accumulator-name check was dropped (same family as C01b-m1)',
+ 'C04d-m2': "an '.include' as first code-producing statement without '.link' (or as first statement of an included file) and a FORWARD PC-relative reference inside the included module: coefficient of the base applied twice",
+ 'C05d-m1': "an impure operator (/ % << >>) on an operand that depends on '.', inside a '.repeat' of 2+ copies: the value cache is keyed by the statement instead of the evaluation state",
+ 'C05d-m2': "two assemblies in one process with a bare number containing 8/9 at the same (file name, offset): the 'already reported' flag is a process-wide set, the second assembly silently reads it as decimal",
+ 'C06d-m1': "a statement that consists only of the name of a constant defined earlier ('five = 5' / 'five'): the implicit '.word' emits nothing",
+ 'C06d-m2': "a character literal as data operand under a non-default charset (cp866 '.byte 'я', utf-8, latin-1): always encoded with bk",
+ 'C07d-m1': '--lst and a global symbol with a dot in its name: generate_listing crashes after the outputs were written (exit 1 without an error diagnostic, files left)',
+ 'C07d-m2': 'graphical format and a displayed diagnostic on the last line of a source that does not end with a newline: KeyError in the handler (exit status depends on format and -W)',
+ 'C08d-m1': "a left shift with a negative count applied to a non-literal value (label, '.', pending symbol): TypeError after the arithmetic-error report",
+ 'C08d-m2': 'an included file that sets its own link base first and is then aborted by a compile-time error: the abort path settles the base twice (AssertionError)',
+ 'C09d-m1': "two top-level files, the first completely evaluated while it is assembled ('.link' first, no forward references): the second is laid out without the link base",
+ 'C09d-m2': "'.repeat' n>=2 with a fully known body that depends on its own address (PC-relative operand to an outside label, '#.'): copies 2.. are laid out at 'addr = len(chunk)'",
+ 'C10d-m1': "the one's-complement prefix spelled '^C' (upper case): KeyError (operator registry and Parser.literal both stopped folding case)",
+ 'C10d-m2': "'ldcld' (one of four synonymous mnemonics) with a bare register 6/7 as source: treated as a floating source, rejected",
+ 'C11d-m1': "'.extern all' written after code, with the same local label name defined in two scopes before it: local labels leak into the export list (false duplicate)",
+ 'C11d-m2': "an '.include' in the middle of a local-label region of the includer: the rest of the region continues in the included file's last scope",
+ 'C12d-m1': "'. = X' (the skip form) inside a '.repeat' body: rejected as unexpected-symbol-definition",
+ 'C12d-m2': "'.link K - end + start' where 'start' is the first label of an included file and a padding of unknown size precedes the include: false recursive-definition",
+ 'C13d-m1': "'MAKE_TURBO_WAV' not in lower case: written as a normal-speed tape",
+ 'C13d-m2': 'an older, LONGER file already exists at the output path: the new contents are written over its beginning (no truncation)',
+ 'C14d-m1': "a refused string that has a '$' (byte 0x24 has two glyphs) before the first or after the last refused character: the encoding error names the wrong positions",
+ 'C14d-m2': 'U+FEFF inside a quoted string: removed by the parser (a leading-BOM fix that replaces every occurrence), so the string is accepted',
+ 'C15d-m1': "'.rad50 /AB/<x>' with x defined below (or undefined): NotReadyError swallowed, the code silently becomes a space",
+ 'C15d-m2': "a '^R' literal whose packed word is >= 0o100000 where more than 16 bits matter (.dword, division): unpacked as a signed word",
+ 'C16d-m1': "'.EXTERN ALL' with a capital letter in the keyword: taken for the name of one symbol, nothing exported (linking no longer equals concatenation); same idea as C10-m2",
+ 'C16d-m2': "an operand-less '.word' inside a '.repeat' of 2+ copies: emitted by the first copy only (a once-per-statement flag guards the return)",
+ 'C17d-m1': "a fault reported at a prefix operator nested under another prefix operator ('mov #~200000', '.word -#5'): the start position is the outer operator's",
+ 'C17d-m2': "a multi-chunk '.rad50' operand with the bad character in a later chunk: reported at the whole operand",
+ 'C18d-m1': "a conversion of a huge integer outside get_as_int (5000-digit literal, 'emt 1 << 15000.') as the FIRST assembly of a process: the int-max-str-digits setting is switched on by the first operand evaluation only",
+ 'C18d-m2': 'nested caret groups with different delimiters, after an earlier parse used the inner delimiter at another nesting level: the terminator parser is memoised per closing character',
+ 'C19d-m1': "a file that defines symbols both before and after an '.include' of a file that also defines symbols: its name heads two sections (groupby of adjacent items)",
+ 'C19d-m2': "the announced size of '.ascii' counts characters (utf-8, non-ASCII text, pending chunk): every listed label behind the directive is at the wrong address",
 }
 
 
